@@ -605,3 +605,33 @@ def check_getvector_dtype(run, rule='R11d'):
                                   % (form, dt.id, dt.id, form, "v.dtype.kind == 'O'" if form == 'ndarray' else 'issymbol(v)'), f=f, node=x)
     if n < 6:
         run.error('R11d: only %d dtype conversions recognised in getvector (expected >= 4)' % n)
+
+
+ASSUMING = {'posify': 'replaces every symbol by a positive one', 'refine': 'simplifies under extra assumptions'}
+
+
+def check_assumption_free(run, rule='R11e'):
+    """Symbolic branches must be value preserving for ALL real substitutions: a sympy call with force=True (powdenest, powsimp,
+    expand_log, logcombine, ...) or posify simplifies as if every symbol were positive (sqrt(x**2) -> x), so the symbolic result
+    disagrees with the numeric one for negative values."""
+    prog = run.prog
+    n = 0
+    for f in prog.analysed_functions():
+        fi = FuncInfo.of(f)
+        for c in own_walk(f.node):
+            if not isinstance(c, ast.Call):
+                continue
+            nm = cname(fi, c) or ''
+            short = nm.split('.')[-1]
+            is_sympy = nm.startswith('sympy') or nm.startswith('sym.')
+            forced = any(k.arg == 'force' and isinstance(k.value, ast.Constant) and k.value.value is True for k in c.keywords)
+            if is_sympy:
+                n += 1
+            if (forced and (is_sympy or short in ('powdenest', 'powsimp', 'expand_log', 'logcombine', 'expand_power_base', 'simplify'))) or \
+                    (short in ASSUMING and (is_sympy or True) and short in ('posify',)):
+                run.violation(rule, f.key, 'assumption-changing simplification ' + src(c, 50), '%s simplifies under the assumption that every symbol is '
+                              'positive: the returned expression is not equal to the numeric result for negative substitutions '
+                              '(sqrt(x**2) becomes x, not |x|)' % src(c.func, 30), f=f, node=c)
+            elif is_sympy:
+                run.holds(rule, f.key, 'sympy call ' + src(c, 40), 'no forced assumptions', f=f, node=c, nontrivial=False)
+    return n
